@@ -471,19 +471,28 @@ pub fn run(tier: &str, seed: u64) -> i32 {
     ev.nontrivial = t.nontrivial;
     ev.classes = t.classes;
     ev.samples = t.samples;
+    // every open finding of this property: its canonical input is re-checked on each run; while it
+    // still misbehaves the finding is reported
     let known = evid::Known::load();
     let excl = EXCLUDED_LET_BOOL.load(Ordering::Relaxed);
-    if let Some(e) = known.open("C15", "let-pattern-before-top-level-lazy-boolean") {
-        println!("KNOWN-FINDING: property=C15 {} [{} generated fault inputs of this class excluded by construction]", e["what"].as_str().unwrap_or(""), excl);
-        ev.known_findings.push("let-pattern-before-top-level-lazy-boolean".into());
-        ev.excluded_known = excl;
-    }
     let nk = KNOWN_LET_KEYWORD.load(Ordering::Relaxed);
-    if nk > 0 {
-        if let Some(e) = known.open("C15", "let-name-is-a-keyword") {
-            println!("KNOWN-FINDING: property=C15 {} [{} generated inputs of this class]", e["what"].as_str().unwrap_or(""), nk);
-            ev.known_findings.push("let-name-is-a-keyword".into());
-            ev.excluded_known += nk;
+    for e in known.entries.iter().filter(|e| e["property"] == "C15" && e["status"] == "open") {
+        let sig = e["signature"].as_str().unwrap_or("").to_string();
+        let (canon, n, still) = match sig.as_str() {
+            "let-pattern-before-top-level-lazy-boolean" => {
+                let c = "let (a, b) = a && b || c";
+                (c, excl, !matches!(expand(c, 0).0, Outcome::SynErr(_)))
+            }
+            "let-name-is-a-keyword" => {
+                let c = "f, let mut let = f";
+                (c, nk, matches!(expand(c, 0).0, Outcome::InvalidOutput(_)))
+            }
+            _ => ("", 0, true),
+        };
+        if still {
+            println!("KNOWN-FINDING: property=C15 {} [canonical input `{}` still misbehaves; {} generated inputs of this class were set aside]", e["what"].as_str().unwrap_or(""), canon, n);
+            ev.known_findings.push(sig);
+            ev.excluded_known += n;
         }
     }
     let mut code = 0;
